@@ -35,6 +35,7 @@ def run(ctx):
     ctx.do(rule_registry)
     ctx.do(rule_version_detectable)
     ctx.do(rule_encoders)
+    ctx.do(rule_decoder_plain)
     ctx.do(rule_defaulted)
     ctx.do(rule_order_and_precision)
     ctx.do(rule_inner_written_by_constructor)
@@ -503,6 +504,32 @@ def rule_defaulted(ctx):
     run.check(okl, R, key(rel, fi.qualname, "loop-over-defined"),
               "bookkeeping loop does not range over the defined properties", file=rel, line=apps[0].lineno, function=fi.qualname,
               expected="for name, prop in defined_properties.items()", found=norm(loop.iter) if loop is not None else None)
+
+
+def rule_decoder_plain(ctx, rule_id="C01.encoder-siblings"):
+    """Every place that decodes JSON text uses the decoder's plain value mapping (float -> float, int -> int, object -> dict).
+    A hook (parse_float, parse_int, parse_constant, object_hook, object_pairs_hook, cls) changes the VALUES an untyped position
+    (custom property, dictionary value, unregistered extension) parses to: Decimal('0.1') != 0.1 and is written back as 1E-7
+    for 1e-07, so parse(serialize(x)) is neither equal to x nor re-serialised alike.  Sibling agreement over all decoder calls."""
+    run = ctx.run
+    prog = ctx.prog
+    hooks = ("parse_float", "parse_int", "parse_constant", "object_hook", "object_pairs_hook", "cls")
+    n = 0
+    for fi in sorted(prog.functions.values(), key=lambda f: f.id):
+        if fi.module.relpath.startswith("stix2/test") or fi.module.name.startswith(("stix2.workbench",)):
+            continue
+        k_ = 0
+        for x in body_walk(fi.node):
+            if isinstance(x, ast.Call) and norm(x.func) in ("json.load", "json.loads", "simplejson.load", "simplejson.loads"):
+                n += 1
+                k_ += 1
+                used = sorted(k.arg for k in x.keywords if k.arg in hooks) + (["**"] if any(k.arg is None for k in x.keywords) else [])
+                run.check(not used, rule_id, key(fi.module.relpath, fi.qualname, "decoder-plain#%d" % k_),
+                          "JSON text is decoded with a value-changing hook (%s): numbers / objects in untyped positions parse to "
+                          "other values than the serializer wrote" % ", ".join(used), file=fi.module.relpath, line=x.lineno,
+                          function=fi.qualname, expected="json.load(s)(text) without hooks", found=short(x, 80))
+    if n < 4:
+        raise AnalysisError("fewer than 4 JSON decoder calls found (%d): anchors lost" % n)
 
 
 # who may write the property storage of an object (frozen; one reason each)
